@@ -15,7 +15,7 @@ go build ./... || { echo "DOES NOT COMPILE"; exit 2; }
 if [ -n "$FAST" ] && [ -f /verif/seeded/$P-${TAG:-}$M/meta.json ]; then
   # already confirmed and stored: only run the check again and refresh check_run
   mkdir -p /tmp/ev.out.$$
-  VERIF_REPO=$W VERIF_OUTDIR=/tmp/ev.out.$$ /verif/check $P "$@" > /tmp/ev.check.$$ 2>&1; RC=$?
+  VERIF_REPO=$W VERIF_OUTDIR=/tmp/ev.out.$$ ${VCHECK:-/verif/check} $P "$@" > /tmp/ev.check.$$ 2>&1; RC=$?
   grep -E "VIOLATION|oracle|OK:|HARNESS|note:" /tmp/ev.check.$$ | cut -c1-260 | head -6
   CAUGHT=false; [ $RC = 1 ] && CAUGHT=true
   ORACLES=$(grep -o "oracle [A-Z0-9]* ([^)]*)" /tmp/ev.check.$$ | sort -u | paste -sd';')
@@ -39,7 +39,7 @@ echo "suite-with-patch=$SUITE demo-with-patch=$WITH demo-without-patch=$WITHOUT 
 [ $SUITE = pass ] || tail -15 /tmp/ev.suite.$$
 git apply $SRC/patch.diff
 mkdir -p /tmp/ev.out.$$
-VERIF_REPO=$W VERIF_OUTDIR=/tmp/ev.out.$$ /verif/check $P "$@" > /tmp/ev.check.$$ 2>&1; RC=$?
+VERIF_REPO=$W VERIF_OUTDIR=/tmp/ev.out.$$ ${VCHECK:-/verif/check} $P "$@" > /tmp/ev.check.$$ 2>&1; RC=$?
 grep -E "VIOLATION|oracle|OK:|HARNESS|note:" /tmp/ev.check.$$ | cut -c1-260 | head -12
 echo "check-exit=$RC"
 if [ "$SUITE" = pass ] && [ "$WITH" = FAIL ] && [ "$WITHOUT" = pass ]; then
